@@ -378,6 +378,74 @@ def check_replicates(chk, r, quick):
     chk.extra["replicate_summary"] = summary
 
 
+def check_pool_replicates(chk, quick):
+    """the documented multiprocessing pattern: the same closed-form problem run through `Aspire.sample_posterior` inside `enable_pool`, with a
+    pool of several workers whose tasks finish out of submission order (the cost of a likelihood call depends on the point) - evidence
+    and posterior moments are those of the serial run (exploration, calibrated bounds)"""
+    import time
+    from multiprocessing.pool import ThreadPool
+
+    from .. import aspire_level as al
+
+    cfg0 = dict(like_center=0.7, like_width=0.4, half=4.0, dims=2)
+    Z, mu = true_values(cfg0)
+
+    def one(x):
+        if x[0] > 0.3:
+            time.sleep(0.0005)
+        return float(-0.5 * np.sum((x - cfg0["like_center"]) ** 2) / cfg0["like_width"] ** 2)
+
+    def log_likelihood(samples, map_fn=map):
+        logl = -np.inf * np.ones(len(samples.x))
+        mask = np.isfinite(np.asarray(samples.log_prior), dtype=bool)
+        logl[mask] = np.fromiter(map_fn(one, np.asarray(samples.x)[mask, :]), dtype=float)
+        return logl
+
+    R = 8 if quick else 24
+    serial = None
+    for workers in (1, 4):
+        ratios, means = [], []
+        case = {"level": "pool_replicates", "sampler": "importance", "workers": workers, "replicates": R}
+        chk.count("pool_replicates")
+        chk.case(None, json.dumps(case))
+        try:
+            for k in range(R):
+                t = smcrun.Target(2, center=cfg0["like_center"], width=cfg0["like_width"], half=cfg0["half"])
+                a = al.make_aspire(t, dims=2, half=cfg0["half"], flow_seed=100 + k)
+                a.log_likelihood = log_likelihood
+                a.fit(al.training_samples(2, 40 + k, center=-0.2, spread=1.3))      # a proposal well off the posterior: the weights vary by orders of magnitude
+                with al.orng_seed(10 + k), ThreadPool(workers) as pool, a.enable_pool(pool, close_pool=False):
+                    s = a.sample_posterior(n_samples=300, sampler="importance")
+                ratios.append(math.exp(float(s.log_evidence)) / Z)
+                w_, x_ = ns.to_np(s.weights), ns.to_np(s.x)[:, 0]
+                means.append(float(np.sum(w_ * x_) / np.sum(w_)))
+        except Exception as e:   # noqa
+            chk.fail("run total", case, repr(e)[:200], {"level": "pool_replicates", "clause": "raise"})
+            continue
+        ratios, means = np.asarray(ratios), np.asarray(means)
+        if serial is None:
+            serial = (ratios, means)
+        elif not (np.allclose(ratios, serial[0], rtol=1e-9) and np.allclose(means, serial[1], rtol=1e-9, atol=1e-12)):
+            # same seeds, same draws: a pool only changes WHERE a likelihood value is computed, so every replicate gives the serial numbers
+            k_ = int(np.argmax(np.abs(ratios - serial[0])))
+            chk.fail("replicate-averaged Z_hat/Z inside calibrated bounds (exploration)", case,
+                     f"replicate {k_}: Z_hat/Z = {ratios[k_]:.6f} inside a pool of {workers} workers, {serial[0][k_]:.6f} with one worker (same seeds and draws); "
+                     f"posterior mean {means[k_]:.4f} vs {serial[1][k_]:.4f}", {"level": "pool_replicates", "clause": "evidence", "sampler": "importance", "preconditioning": f"pool{workers}"})
+            continue
+        se = max(float(np.std(ratios, ddof=1)) / math.sqrt(R), 0.01)
+        sem = max(float(np.std(means, ddof=1)) / math.sqrt(R), 0.01 * cfg0["like_width"])
+        chk.extra.setdefault("pool_replicates", []).append({"workers": workers, "mean_Zhat_over_Z": round(float(ratios.mean()), 4), "se": round(se, 4),
+                                                            "posterior_mean": round(float(means.mean()), 4), "true_mean": round(mu, 4)})
+        if abs(ratios.mean() - 1) > 6 * se + 0.05:
+            chk.fail("replicate-averaged Z_hat/Z inside calibrated bounds (exploration)", case,
+                     f"inside a pool of {workers} worker(s): mean Z_hat/Z = {ratios.mean():.4f} +- {se:.4f} over {R} replicates",
+                     {"level": "pool_replicates", "clause": "evidence", "sampler": "importance", "preconditioning": f"pool{workers}"})
+        if abs(means.mean() - mu) > 6 * sem + 0.05 * cfg0["like_width"]:
+            chk.fail("replicate-averaged posterior mean inside calibrated bounds (exploration)", case,
+                     f"inside a pool of {workers} worker(s): posterior mean {means.mean():.4f} +- {sem:.4f}, true {mu:.4f}",
+                     {"level": "pool_replicates", "clause": "mean", "sampler": "importance", "preconditioning": f"pool{workers}"})
+
+
 def m_all_zero_nan(rec, sig):
     s = rec["signature"]
     return s.get("clause") == "all_zero_prior" and s.get("is_nan")
@@ -403,6 +471,7 @@ def run(chk: core.Check):
     check_step_enumeration(chk, r, 12 if quick else 100)
     check_kernel_quadrature(chk, np.random.default_rng(chk.seed + 1003), 16 if quick else 144)
     check_replicates(chk, r, quick)
+    check_pool_replicates(chk, quick)
 
     def search():
         return None
